@@ -49,6 +49,7 @@ type FuncContract struct {
 	Pure      bool
 	Trusted   bool   // body not verified (assumed contract on repository code)
 	Assumed   bool   // came from /verif/contracts/assumed (dependency)
+	Borrows   bool   // pointer arguments are not retained by the callee
 	NoFrame   bool   // do not generate frame obligation
 	Variant   string // distinguishes several contract blocks for one function (e.g. "bv")
 	File      string
@@ -452,6 +453,8 @@ func parseFuncClause(f *FuncContract, file string, ln int, kw, rest string) erro
 		f.Trusted = true
 	case "noframe":
 		f.NoFrame = true
+	case "borrows":
+		f.Borrows = true
 	case "requires", "ensures":
 		c, err := mkClause(file, ln, rest)
 		if err != nil {
